@@ -49,6 +49,8 @@ pub enum Sched {
     Random,
     Pct,
     Starve,
+    /// no choice at all: the smallest entity key runs (deterministic control executions)
+    Fifo,
 }
 
 struct Inner {
@@ -96,6 +98,7 @@ impl Turnstile {
         let sched = match sched {
             "pct" => Sched::Pct,
             "starve" => Sched::Starve,
+            "fifo" => Sched::Fifo,
             _ => Sched::Random,
         };
         let d = 1 + rng.below(3);
@@ -337,7 +340,7 @@ impl Turnstile {
             return cands[0];
         }
         // bias (simulation A): right after the writer parked at a new kind of site, prefer a reader
-        if let Some((St::Parked, site)) = g.ents.get(&WRITER).copied() {
+        if let (Some((St::Parked, site)), true) = (g.ents.get(&WRITER).copied(), g.sched != Sched::Fifo) {
             if g.seen_writer_sites.insert(site) {
                 let readers: Vec<Key> = cands.iter().copied().filter(|k| k.0 == 1).collect();
                 if !readers.is_empty() && g.rng.chance(1, 2) {
@@ -346,6 +349,7 @@ impl Turnstile {
             }
         }
         match g.sched {
+            Sched::Fifo => *cands.iter().min().unwrap(),
             Sched::Random => cands[g.rng.below(cands.len() as u64) as usize],
             Sched::Pct => {
                 for k in cands {
